@@ -102,11 +102,18 @@ package writer
 //@   modifies nothing
 //@ trusted func newRequestSwitchSender(addresses proxy.AddressMap, senders map[address.Address]freighter.StreamSenderCloser[Request]) (sk confluence.Sink[Request])
 //@   modifies nothing
+//@ # ghost: 1 while peer streams opened by an open in progress (or owned by a writer) are open, 0
+//@ # once they have been closed. A failed open must leave it at 0 (C05/C07: a writer that no caller
+//@ # holds must not keep controlling channels on a peer).
+//@ ghost SpecPeersOpen *int
 //@ trusted func (s *Service) openPeerClient(ctx context.Context, target address.Address, cfg Config) (c ClientStream, err error)
-//@   modifies nothing
+//@   ensures err == nil ==> *SpecPeersOpen == 1
+//@   ensures err != nil ==> *SpecPeersOpen == old(*SpecPeersOpen)
+//@   modifies SpecPeersOpen
 //@ trusted func (s *Service) closePeerClients(senders map[address.Address]freighter.StreamSenderCloser[Request], originalErr error) (err error)
 //@   ensures originalErr != nil ==> err != nil
-//@   modifies nothing
+//@   ensures *SpecPeersOpen == 0
+//@   modifies SpecPeersOpen
 
 //@ # one entry per key, in key order, leased where the key is leased
 //@ func (c Config) keyAuthorities() (r []keyAuthority)
@@ -120,10 +127,19 @@ package writer
 //@   loop 0 invariant len(c.Keys) == len(authorities) && len(c.Authorities) == len(authorities) && (forall i int :: 0 <= i && i < __ri(0) ==> c.Keys[i] == authorities[i].key)
 
 //@ # One receiver (and one receiver address) is opened per peer leaseholder.
-//@ func (s *Service) openManyPeers(ctx context.Context, cfg Config, targets map[node.Key][]keyAuthority) (sender confluence.Sink[Request], receivers []*freightfluence.Receiver[Response], addrs []address.Address, err error)
+//@ func (s *Service) openManyPeers(ctx context.Context, cfg Config, targets map[node.Key][]keyAuthority) (sender confluence.Sink[Request], receivers []*freightfluence.Receiver[Response], addrs []address.Address, opened map[address.Address]freighter.StreamSenderCloser[Request], err error)
 //@   ensures err == nil ==> len(receivers) == len(targets) && len(addrs) == len(targets)
+//@   # the streams it opened are handed back so that the caller can close them if the rest of the
+//@   # open fails; on its own failure it has closed them itself
+//@   ensures (err == nil) == (opened != nil)
+//@   requires *SpecPeersOpen == 0
+//@   ensures err != nil ==> *SpecPeersOpen == 0
+//@   ensures err == nil && len(targets) > 0 ==> *SpecPeersOpen == 1 && len(opened) > 0
+//@   ensures err == nil && len(targets) == 0 ==> *SpecPeersOpen == 0
+//@   modifies SpecPeersOpen
+//@   loop 0 invariant (__rc(0) > 0 ==> *SpecPeersOpen == 1 && len(senders) > 0) && (__rc(0) == 0 ==> *SpecPeersOpen == 0) && senders != nil
 //@   loop 0 invariant len(receivers) == __rc(0) && len(receiverAddresses) == __rc(0)
-//@   loop 0 modifies addrMap, senders
+//@   loop 0 modifies addrMap, senders, SpecPeersOpen
 
 //@ # The synchronizer acknowledges a command once it has seen nodeCount responses. NewStream must
 //@ # size it with the number of response sources it routes into it - one receiver per peer
@@ -134,6 +150,10 @@ package writer
 //@   loop 0 modifies channelMap
 //@   pragma from HostKey()
 //@   pragma abstract UniqueLeaseholders NewKey
+//@   # a failed open leaves no peer stream open
+//@   requires *SpecPeersOpen == 0
+//@   ensures  err != nil ==> *SpecPeersOpen == 0
+//@   modifies SpecPeersOpen
 //@   from_requires cfg.Sync != nil && len(cfg.Authorities) > 0
 //@   # ASSUMPTION (set cardinality, not proved): the distinct leaseholders of the keys are the peer
 //@   # buckets plus the host (if it leases a key) plus the free "node" (if a key is free)
